@@ -235,3 +235,147 @@ Theorem C14_model_merge_rename_aliases : forall h s d d',
   (run_alone R_OverlappingFieldsCanBeMerged s d = [] <-> run_alone R_OverlappingFieldsCanBeMerged s d' = []).
 Proof. exact run_alone_merge_rename_aliases. Qed.
 Print Assumptions C14_model_merge_rename_aliases.
+
+(* C14_additions2.v — to be appended to properties/C14.v.  Needs, next to the imports of C14.v:
+From GTP Require Import C14_rename_proofs C14_wrap_proofs.
+   (_CoqProject: proofs/C14_rename_proofs.v, proofs/C14_wrap_proofs.v, in this order, after
+    proofs/C14_merge_model_proofs.v) *)
+From GT Require Import Visitor Validate.
+From Coq Require Import Permutation.
+From GTS Require Import Annot WfSchema SpecRules SpecValid.
+From GTP Require Import C14_proofs C14_more_proofs C14_schema_proofs C14_merge_model_proofs C14_rename_proofs C14_wrap_proofs.
+
+(* ---- (d) fragments renamed: [rename_fragments_doc ff d] = d with ff applied to the name of every fragment
+   definition and of every fragment spread (nothing else changes); ff injective on the names in play,
+   [doc_fragment_names d] = the names of the fragment definitions and the names the spreads mention (so an
+   unknown spread stays unknown).  Every rule. *)
+Theorem C14_spec_rename_fragments : forall ff r s d,
+  injective_on ff (doc_fragment_names d) ->
+  violated r s d = violated r s (rename_fragments_doc ff d).
+Proof. exact violated_rename_fragments. Qed.
+Print Assumptions C14_spec_rename_fragments.
+
+Theorem C14_model_rename_fragments : forall ff r s d,
+  r <> R_OverlappingFieldsCanBeMerged ->
+  wf_schema s = true -> doc_types_proper d = true -> defaults_const d = true ->
+  distinct_fragments d = true -> rule_in_scope r s d = true ->
+  injective_on ff (doc_fragment_names d) ->
+  (run_alone r s d = [] <-> run_alone r s (rename_fragments_doc ff d) = []).
+Proof. exact run_alone_rename_fragments. Qed.
+Print Assumptions C14_model_rename_fragments.
+
+(* injectivity is needed, also on the names that only spreads mention *)
+Theorem C14_rename_fragments_needs_injective :
+  violated R_UniqueFragmentNames cx_schema [cxf_frag "F"; cxf_frag "G"; cxf_op ["F"; "G"]] = false /\
+  violated R_UniqueFragmentNames cx_schema
+           (rename_fragments_doc (fun _ => "F") [cxf_frag "F"; cxf_frag "G"; cxf_op ["F"; "G"]]) = true.
+Proof. exact rename_fragments_needs_injective. Qed.
+Print Assumptions C14_rename_fragments_needs_injective.
+
+Theorem C14_rename_fragments_needs_injective_on_spreads :
+  injective_on cxf_ff (frag_names [cxf_frag "F"; cxf_op ["F"; "U"]]) /\
+  violated R_KnownFragmentNames cx_schema [cxf_frag "F"; cxf_op ["F"; "U"]] = true /\
+  violated R_KnownFragmentNames cx_schema (rename_fragments_doc cxf_ff [cxf_frag "F"; cxf_op ["F"; "U"]]) = false.
+Proof. exact rename_fragments_needs_injective_on_spreads. Qed.
+Print Assumptions C14_rename_fragments_needs_injective_on_spreads.
+
+(* ---- (d) variables renamed: [rename_variables_doc fv d] = d with fv applied to the name of every variable
+   definition and to every variable inside a value (arguments of fields and of directives, default values,
+   nested lists and objects); fv injective on [doc_variable_names d] = the defined and the used variable
+   names.  Every rule. *)
+Theorem C14_spec_rename_variables : forall fv r s d,
+  injective_on fv (doc_variable_names d) ->
+  violated r s d = violated r s (rename_variables_doc fv d).
+Proof. exact violated_rename_variables. Qed.
+Print Assumptions C14_spec_rename_variables.
+
+Theorem C14_model_rename_variables : forall fv r s d,
+  r <> R_OverlappingFieldsCanBeMerged ->
+  wf_schema s = true -> doc_types_proper d = true -> defaults_const d = true ->
+  distinct_fragments d = true -> rule_in_scope r s d = true ->
+  injective_on fv (doc_variable_names d) ->
+  (run_alone r s d = [] <-> run_alone r s (rename_variables_doc fv d) = []).
+Proof. exact run_alone_rename_variables. Qed.
+Print Assumptions C14_model_rename_variables.
+
+Theorem C14_model_merge_rename_variables : forall fv s d,
+  wf_schema s = true -> merge_side s d -> injective_on fv (doc_variable_names d) ->
+  (run_alone R_OverlappingFieldsCanBeMerged s d = [] <->
+   run_alone R_OverlappingFieldsCanBeMerged s (rename_variables_doc fv d) = []).
+Proof. exact run_alone_merge_rename_variables. Qed.
+Print Assumptions C14_model_merge_rename_variables.
+
+Theorem C14_rename_variables_needs_injective :
+  violated R_UniqueVariableNames cxv_schema cxw_doc = false /\
+  violated R_UniqueVariableNames cxv_schema (rename_variables_doc (fun _ => "v") cxw_doc) = true.
+Proof. exact rename_variables_needs_injective. Qed.
+Print Assumptions C14_rename_variables_needs_injective.
+
+(* both at once *)
+Theorem C14_spec_rename_fragments_and_variables : forall ff fv r s d,
+  injective_on ff (doc_fragment_names d) -> injective_on fv (doc_variable_names d) ->
+  violated r s d = violated r s (rn_doc ff fv d).
+Proof. exact violated_rn_on. Qed.
+Print Assumptions C14_spec_rename_fragments_and_variables.
+
+(* ---- (e) wrapping in untyped inline fragments: [wrap_doc d d'] = d' is d with contiguous NON-EMPTY parts of
+   selection lists wrapped in `... { }` (inline fragment without type condition and without directives), anywhere
+   (operations, fragment definitions, fields, inline fragments), any number of times, also nested
+   ([wlist] / [wsel], C14_wrap_proofs.v).  Every rule except FieldsOnCorrectType is invariant. *)
+Theorem C14_spec_wrap : forall r s d d',
+  wrap_doc d d' -> r <> R_FieldsOnCorrectType -> violated r s d = violated r s d'.
+Proof. exact violated_wrap. Qed.
+Print Assumptions C14_spec_wrap.
+
+(* FieldsOnCorrectType = [fields_undefined s d || subscription_typename d] (definitionally): its clause about the
+   fields is invariant, its clause "a __typename directly at a subscription root" can only get lost *)
+Theorem C14_spec_wrap_fields_on_correct_type : forall s d d', wrap_doc d d' ->
+  (violated R_FieldsOnCorrectType s d' = true -> violated R_FieldsOnCorrectType s d = true) /\
+  (subscription_typename d = false -> violated R_FieldsOnCorrectType s d = violated R_FieldsOnCorrectType s d').
+Proof. exact violated_wrap_fields_on_correct_type. Qed.
+Print Assumptions C14_spec_wrap_fields_on_correct_type.
+
+(* accept / reject: invariant when the schema has a subscription root type (then SingleFieldSubscriptions rejects
+   a __typename at a subscription root, wrapped or not) or no subscription of d selects __typename directly *)
+Theorem C14_spec_valid_wrap : forall s d d', wrap_doc d d' ->
+  (subscription_typename d = true -> is_some (root s OpSubscription) = true) ->
+  spec_valid s d = spec_valid s d'.
+Proof. exact spec_valid_wrap. Qed.
+Print Assumptions C14_spec_valid_wrap.
+
+Theorem C14_model_wrap : forall r s d d',
+  r <> R_OverlappingFieldsCanBeMerged -> r <> R_FieldsOnCorrectType ->
+  wf_schema s = true -> doc_types_proper d = true -> defaults_const d = true ->
+  distinct_fragments d = true -> rule_in_scope r s d = true ->
+  wrap_doc d d' ->
+  (run_alone r s d = [] <-> run_alone r s d' = []).
+Proof. exact run_alone_wrap. Qed.
+Print Assumptions C14_model_wrap.
+
+(* the exclusions are needed *)
+Theorem C14_wrap_fields_on_correct_type_cex :
+  wf_schema wx_schema_sub = true /\
+  wrap_doc (wx_sub [cx_field "__typename"]) (wx_sub [wx_wrap [cx_field "__typename"]]) /\
+  violated R_FieldsOnCorrectType wx_schema_sub (wx_sub [cx_field "__typename"]) = true /\
+  violated R_FieldsOnCorrectType wx_schema_sub (wx_sub [wx_wrap [cx_field "__typename"]]) = false /\
+  spec_valid wx_schema_sub (wx_sub [cx_field "__typename"]) = false /\
+  spec_valid wx_schema_sub (wx_sub [wx_wrap [cx_field "__typename"]]) = false.
+Proof. exact wrap_fields_on_correct_type_cex. Qed.
+Print Assumptions C14_wrap_fields_on_correct_type_cex.
+
+Theorem C14_wrap_spec_valid_cex :
+  wf_schema cx_schema = true /\
+  wrap_doc (wx_sub [cx_field "__typename"]) (wx_sub [wx_wrap [cx_field "__typename"]]) /\
+  spec_valid cx_schema (wx_sub [cx_field "__typename"]) = false /\
+  spec_valid cx_schema (wx_sub [wx_wrap [cx_field "__typename"]]) = true.
+Proof. exact wrap_spec_valid_cex. Qed.
+Print Assumptions C14_wrap_spec_valid_cex.
+
+Theorem C14_wrap_empty_cex :
+  violated R_LeafFieldSelections cx_schema
+           [DOp (mkOperation OpQuery cx_z (Some "Q") [] [] (cx_z, cx_z) [cx_field "a"])] = false /\
+  violated R_LeafFieldSelections cx_schema
+           [DOp (mkOperation OpQuery cx_z (Some "Q") [] [] (cx_z, cx_z)
+                   [SField cx_z None "a" [] [] (cx_z, cx_z) [wx_wrap []]])] = true.
+Proof. exact wrap_empty_cex. Qed.
+Print Assumptions C14_wrap_empty_cex.
